@@ -100,7 +100,7 @@ def correspondence(ctx):
 
 def search(ctx, broken, corr_failures):
     n = ctx.n(60, 3000)
-    r = vlib.run_impl("c02_impl", {"fn": "oracle", "seed": ctx.seed, "n": n}, timeout=1500)
+    r = vlib.run_impl("c02_impl", {"fn": "oracle", "seed": ctx.seed, "n": n, "scratch": ctx.scratch}, timeout=1500)
     ctx.notes.append(f"implementation-side property evaluation: {r['counts']}")
     out, seen = [], set()
     for f in r["fails"]:
@@ -113,7 +113,7 @@ def search(ctx, broken, corr_failures):
 
 def replay(ctx, data):
     f = data.get("failure") or {}
-    r = vlib.run_impl("c02_impl", {"fn": "oracle", "seed": data.get("seed", ctx.seed), "n": data.get("n", 60)}, timeout=1500)
+    r = vlib.run_impl("c02_impl", {"fn": "oracle", "seed": data.get("seed", ctx.seed), "n": data.get("n", 60), "scratch": ctx.scratch}, timeout=1500)
     for g in r["fails"]:
         if g["key"] == f.get("key"):
             return g["what"]
@@ -127,5 +127,6 @@ MANIFEST_ENTRY = {
             "round-trips. The constructor routes are regenerated from Grid.__init__ by tracing; the ITK spec is itself compared with SimpleITK "
             "on every run (independent oracle), all comparisons inside Coq on exact rationals.",
     "note": "Partial: SimpleITK header accessors and the tensor<->sitk conversion are runtime (covered by implementation-side round trips "
-            "Grid.from_sitk / Image.sitk / Image.from_sitk incl. voxel order). Trusted: Coq kernel, vm_compute, translator, SimpleITK as oracle.",
+            "Grid.from_sitk / Image.sitk / Image.from_sitk incl. voxel order, Grid.from_file / from_reader of .mha and .nii.gz files written by "
+            "SimpleITK, both align_corners flags, GridAttrs with every documented form of the direction argument). Trusted: Coq kernel, vm_compute, translator, SimpleITK as oracle.",
 }
